@@ -331,7 +331,7 @@ class TrackingOracle(Bounded):
     """exhaustive small-scope stand-in for the whole algorithm (partition + identity clauses) against an independent oracle"""
     name = "tracking-vs-oracle"
     bound = ("ALL time courses of <= 3 frames with <= 2 non-overlapping droplets per frame on a 3-site half-integer 1-d lattice with radii "
-             "{0.4, 0.9} (incl. empty frames, splitting and merging events), both methods; with/without a periodic grid and cut-offs "
+             "{0.4, 0.9} (incl. empty frames, splitting and merging events), both methods; all 2-frame courses with radii {0.5, 1.0} (exactly touching droplets, tangent daughters of a split); with/without a periodic grid and cut-offs "
              "{none, 1.2} for <= 2 frames (thorough: also for 3 frames); distance method: ALL pairs of frames with <= 3 droplets on a 4-site lattice with pairwise "
              "distinct distances x cut-offs {none, 1.3, 2.0} x {no grid, periodic grid}; plus 150 (quick) / 3000 (thorough) "
              "random 1-3-d time courses of <= 5 frames x <= 4 moving, appearing and disappearing non-overlapping droplets")
@@ -363,6 +363,19 @@ class TrackingOracle(Bounded):
                                 continue
                             one(dict(frames=[[[x] for x, _ in f] for f in frames], radii=[[r for _, r in f] for f in frames],
                                      method=method, grid=grid, max_dist=md, dim=1), ("lat", repr(frames), method, grid, md))
+        # droplets that TOUCH exactly (surface distance 0, representable exactly: half-integer sites, radii 0.5 / 1.0) do not overlap: a droplet
+        # splitting into two tangent daughters must give two tracks, not one track with two droplets of one frame
+        rads_t = [0.5, 1.0]
+        singles_t = [[(x, r)] for x in lat for r in rads_t]
+        pairs_t = [[(x, r1), (y, r2)] for x, y in itertools.combinations(lat, 2) for r1 in rads_t for r2 in rads_t if abs(x - y) >= r1 + r2]
+        opts_t = [[]] + singles_t + pairs_t
+        for frames in itertools.product(opts_t, repeat=2):
+            for method in ("overlap", "distance"):
+                one(dict(frames=[[[x] for x, _ in f] for f in frames], radii=[[r for _, r in f] for f in frames], method=method, grid=False,
+                         max_dist=None, dim=1), ("tangent", repr(frames), method))
+        for grid in (False, True):
+            one(dict(frames=[[[3.0]], [[2.0], [4.0]], [[2.0], [4.0]]], radii=[[3.0], [1.0, 1.0], [1.0, 1.0]], method="overlap", grid=grid, max_dist=None, dim=1),
+                ("tangent-split", grid))
         # distance method: two frames of <= 3 droplets on a lattice with pairwise distinct distances (greedy order matters)
         lat2 = [0.5, 1.7, 3.3, 5.6]
         subsets = [c for n in range(0, 4) for c in itertools.combinations(lat2, n)]
